@@ -27,18 +27,22 @@ theorem cursorRow_frozen {s t : SearchSt} (h : Frozen s t) (p : Nat) (e : Entry)
     cursorRow t p e = cursorRow s p e := by
   unfold cursorRow; rw [h.p, h.q, h.r]
 
+/-- the whole text (first = 0) is handed over with flags 0 in both source shapes -/
+theorem fwdFlags_zero (sh : Shape) (hay : List Nat) : fwdFlags sh hay 0 = {} := by
+  unfold fwdFlags insideRow; cases sh.anchors <;> simp
+
 /-- return value of `search_page_fwd` -/
-def codeFwd (exec : Exec) (s : SearchSt) (p : Nat) (e : Entry) (w : Bool) : Int :=
+def codeFwd (sh : Shape) (exec : Exec) (s : SearchSt) (p : Nat) (e : Entry) (w : Bool) : Int :=
   if stopFwd s p e w then -1 else
   if e.func ≠ FUNC_LOP then 0 else
   if cursorRow s p e > LAST_ROW then 0 else
   if (hayFwd e.text (cursorRow s p e) s.col0).2 ≥ (hayFwd e.text (cursorRow s p e) s.col0).1.length then 0 else
-  match exec {} ((hayFwd e.text (cursorRow s p e) s.col0).1.drop (hayFwd e.text (cursorRow s p e) s.col0).2) with
+  match exec (fwdFlags sh (hayFwd e.text (cursorRow s p e) s.col0).1 (hayFwd e.text (cursorRow s p e) s.col0).2) ((hayFwd e.text (cursorRow s p e) s.col0).1.drop (hayFwd e.text (cursorRow s p e) s.col0).2) with
   | none => 0
   | some _ => 1
 
-theorem pageFwd_fst (exec : Exec) (s : SearchSt) (p : Nat) (e : Entry) (w : Bool) :
-    (pageFwd exec s p e w).1 = codeFwd exec s p e w := by
+theorem pageFwd_fst (sh : Shape) (exec : Exec) (s : SearchSt) (p : Nat) (e : Entry) (w : Bool) :
+    (pageFwd sh exec s p e w).1 = codeFwd sh exec s p e w := by
   unfold pageFwd codeFwd
   by_cases h1 : stopFwd s p e w = true
   · rw [if_pos h1, if_pos h1]
@@ -53,17 +57,17 @@ theorem pageFwd_fst (exec : Exec) (s : SearchSt) (p : Nat) (e : Entry) (w : Bool
         by_cases h4 : (hayFwd e.text (cursorRow s p e) s.col0).2 ≥ (hayFwd e.text (cursorRow s p e) s.col0).1.length
         · rw [if_pos h4, if_pos h4]
         · rw [if_neg h4, if_neg h4]
-          generalize exec {} ((hayFwd e.text (cursorRow s p e) s.col0).1.drop (hayFwd e.text (cursorRow s p e) s.col0).2) = r
+          generalize exec (fwdFlags sh (hayFwd e.text (cursorRow s p e) s.col0).1 (hayFwd e.text (cursorRow s p e) s.col0).2) ((hayFwd e.text (cursorRow s p e) s.col0).1.drop (hayFwd e.text (cursorRow s p e) s.col0).2) = r
           cases r with
           | none => rfl
           | some mm => obtain ⟨a, b⟩ := mm; rfl
 
-theorem codeFwd_frozen (exec : Exec) {s t : SearchSt} (h : Frozen s t) (p : Nat) (e : Entry) (w : Bool) :
-    codeFwd exec t p e w = codeFwd exec s p e w := by
+theorem codeFwd_frozen (sh : Shape) (exec : Exec) {s t : SearchSt} (h : Frozen s t) (p : Nat) (e : Entry) (w : Bool) :
+    codeFwd sh exec t p e w = codeFwd sh exec s p e w := by
   unfold codeFwd; rw [stopFwd_frozen h, cursorRow_frozen h, h.c]
 
 theorem pageFwd_zero_frozen {exec : Exec} {s : SearchSt} {p : Nat} {e : Entry} {w : Bool} {s1 : SearchSt}
-    (h : pageFwd exec s p e w = (0, s1)) : Frozen s s1 := by
+    (h : pageFwd sh exec s p e w = (0, s1)) : Frozen s s1 := by
   unfold pageFwd at h
   by_cases h1 : stopFwd s p e w = true
   · rw [if_pos h1] at h; injection h with h _; cases h
@@ -78,13 +82,13 @@ theorem pageFwd_zero_frozen {exec : Exec} {s : SearchSt} {p : Nat} {e : Entry} {
         by_cases h4 : (hayFwd e.text (cursorRow s p e) s.col0).2 ≥ (hayFwd e.text (cursorRow s p e) s.col0).1.length
         · rw [if_pos h4] at h; injection h with _ h; subst h; exact ⟨rfl, rfl, rfl, rfl, rfl, rfl⟩
         · rw [if_neg h4] at h
-          generalize exec {} ((hayFwd e.text (cursorRow s p e) s.col0).1.drop (hayFwd e.text (cursorRow s p e) s.col0).2) = r at h
+          generalize exec (fwdFlags sh (hayFwd e.text (cursorRow s p e) s.col0).1 (hayFwd e.text (cursorRow s p e) s.col0).2) ((hayFwd e.text (cursorRow s p e) s.col0).1.drop (hayFwd e.text (cursorRow s p e) s.col0).2) = r at h
           cases r with
           | none => simp only at h; injection h with _ h; subst h; exact ⟨rfl, rfl, rfl, rfl, rfl, rfl⟩
           | some mm => obtain ⟨a, b⟩ := mm; simp only at h; injection h with h _; cases h
 
 theorem codeFwd_minus1 {exec : Exec} {s : SearchSt} {p : Nat} {e : Entry} {w : Bool}
-    (h : codeFwd exec s p e w = -1) : stopFwd s p e w = true := by
+    (h : codeFwd sh exec s p e w = -1) : stopFwd s p e w = true := by
   unfold codeFwd at h
   by_cases h1 : stopFwd s p e w = true
   · exact h1
@@ -108,10 +112,10 @@ theorem stopsF_frozen {c : Cache} {s t : SearchSt} (h : Frozen s t) (x : Pos) : 
   · rintro ⟨e, h1, h2⟩; exact ⟨e, h1, by rw [stopFwd_frozen h]; exact h2⟩
 
 /-- a fold that ends with -1 has returned 0 on every found page before the first stopping position -/
-theorem runPos_minus1 (exec : Exec) (c : Cache) : ∀ (L : List Pos) (s sf : SearchSt),
-    runPos (pageFwd exec) c L s = (-1, sf) →
+theorem runPos_minus1 (sh : Shape) (exec : Exec) (c : Cache) : ∀ (L : List Pos) (s sf : SearchSt),
+    runPos (pageFwd sh exec) c L s = (-1, sf) →
     ∀ (pre : List Pos) (x : Pos) (post : List Pos), L = pre ++ x :: post → (∀ y ∈ pre, ¬ StopsF c s y) →
-      ¬ StopsF c s x → ∀ e, lookupX c x.1 x.2.1 = some e → codeFwd exec s x.1.toNat e x.2.2 = 0 := by
+      ¬ StopsF c s x → ∀ e, lookupX c x.1 x.2.1 = some e → codeFwd sh exec s x.1.toNat e x.2.2 = 0 := by
   intro L
   induction L with
   | nil => intro s sf _ pre x post h; simp at h
@@ -133,10 +137,10 @@ theorem runPos_minus1 (exec : Exec) (c : Cache) : ∀ (L : List Pos) (s sf : Sea
         exact ih s sf hrun pre' x post h2 (fun y hy => hpre y (List.mem_cons_of_mem _ hy)) hx e he
     | some ea =>
       rw [hla] at hrun; simp only at hrun
-      cases hcb : pageFwd exec s ap.toNat ea aw with
+      cases hcb : pageFwd sh exec s ap.toNat ea aw with
       | mk r1 s1 =>
         rw [hcb] at hrun; simp only at hrun
-        have hcode : codeFwd exec s ap.toNat ea aw = r1 := by rw [← pageFwd_fst, hcb]
+        have hcode : codeFwd sh exec s ap.toNat ea aw = r1 := by rw [← pageFwd_fst, hcb]
         by_cases hr1 : r1 = 0
         · subst hr1
           simp only [ne_eq, not_true_eq_false, ite_false] at hrun
@@ -154,7 +158,7 @@ theorem runPos_minus1 (exec : Exec) (c : Cache) : ∀ (L : List Pos) (s sf : Sea
             have := ih s1 sf hrun pre' x post h2
               (fun y hy => fun hs => hpre y (List.mem_cons_of_mem _ hy) ((stopsF_frozen hfz y).mp hs))
               (fun hs => hx ((stopsF_frozen hfz x).mp hs)) e he
-            rw [codeFwd_frozen exec hfz] at this
+            rw [codeFwd_frozen sh exec hfz] at this
             exact this
         · simp only [ne_eq, hr1, not_false_eq_true, ite_true] at hrun
           have h1 : r1 = -1 := congrArg Prod.fst hrun
@@ -325,9 +329,9 @@ theorem hayFwd_nonempty (t : Text) (row col0 : Int) : 0 < (hayFwd t row col0).1.
 
 /-- in a fresh forward pass (cursor row 1, column 0) a level one page that does not stop the pass is searched from
     its beginning: the return value tells whether the WHOLE text contains the pattern -/
-theorem codeFwd_fresh (exec : Exec) {s1 : SearchSt} (hr : s1.row0 = 1) (hc : s1.col0 = 0) (p : Nat) (e : Entry) (w : Bool)
+theorem codeFwd_fresh (sh : Shape) (exec : Exec) {s1 : SearchSt} (hr : s1.row0 = 1) (hc : s1.col0 = 0) (p : Nat) (e : Entry) (w : Bool)
     (hlop : e.func = FUNC_LOP) (hns : stopFwd s1 p e w = false) :
-    codeFwd exec s1 p e w = (match exec {} (hayFwd e.text (-1) 0).1 with | none => 0 | some _ => 1) := by
+    codeFwd sh exec s1 p e w = (match exec {} (hayFwd e.text (-1) 0).1 with | none => 0 | some _ => 1) := by
   unfold codeFwd
   have hlop' : ¬ e.func ≠ FUNC_LOP := by simpa using hlop
   rw [hns]
@@ -345,17 +349,17 @@ theorem codeFwd_fresh (exec : Exec) {s1 : SearchSt} (hr : s1.row0 = 1) (hc : s1.
   have hrl : ¬ cursorRow s1 p e > LAST_ROW := by
     unfold LAST_ROW; rcases hrow with h1 | h1 <;> rw [h1] <;> decide
   rw [if_neg hrl, hfirst, if_neg (by omega)]
-  simp only [List.drop_zero]
+  simp only [List.drop_zero, fwdFlags_zero]
   rw [hayFwd_fst_indep e.text (cursorRow s1 p e) s1.col0 (-1) 0]
 
 theorem codeFwd_not_stop {exec : Exec} {s : SearchSt} {p : Nat} {e : Entry} {w : Bool}
-    (h : codeFwd exec s p e w ≠ -1) : stopFwd s p e w = false := by
+    (h : codeFwd sh exec s p e w ≠ -1) : stopFwd s p e w = false := by
   cases hs : stopFwd s p e w with
   | false => rfl
   | true => unfold codeFwd at h; rw [hs] at h; simp at h
 
 theorem codeFwd_one_lop {exec : Exec} {s : SearchSt} {p : Nat} {e : Entry} {w : Bool}
-    (h : codeFwd exec s p e w = 1) : e.func = FUNC_LOP := by
+    (h : codeFwd sh exec s p e w = 1) : e.func = FUNC_LOP := by
   unfold codeFwd at h
   split at h
   · cases h
@@ -437,9 +441,9 @@ theorem searchNext_not_found_fresh_fwd (sh : Shape) (exec : Exec) (c : Cache) (s
   rw [searchNext_factors sh exec c s d hne hp' hok'] at h
   have hr := statusOf_not_found h
   have hdir : dirOf d = 1 := by unfold dirOf; simp [hd]
-  have hcb : callbackOf exec d = pageFwd exec := by unfold callbackOf; simp [hd]
+  have hcb : callbackOf sh exec d = pageFwd sh exec := by unfold callbackOf; simp [hd]
   rw [hdir, hcb, f1, f2] at hr
-  generalize hrp : runPos (pageFwd exec) c (walkPositions sh c s.stopPgno0 s.stopSubno0 1) (prepare sh s d) = rp at hr
+  generalize hrp : runPos (pageFwd sh exec) c (walkPositions sh c s.stopPgno0 s.stopSubno0 1) (prepare sh s d) = rp at hr
   obtain ⟨r, sf⟩ := rp
   simp only at hr; subst hr
   intro x hx hwin e he hlop
@@ -500,13 +504,13 @@ theorem searchNext_not_found_fresh_fwd (sh : Shape) (exec : Exec) (c : Cache) (s
           have by' := landed_bounds hiny
           unfold key at hxk ⊢
           omega
-  have hcode := runPos_minus1 exec c _ _ _ hrp pre x post hL hprens hxns e he
+  have hcode := runPos_minus1 sh exec c _ _ _ hrp pre x post hL hprens hxns e he
   -- code 0 on a level one page that does not stop the pass: the matcher found nothing in the whole page
   have hns : stopFwd (prepare sh s d) x.1.toNat e x.2.2 = false := by
     cases hsf : stopFwd (prepare sh s d) x.1.toNat e x.2.2 with
     | false => rfl
     | true => exact absurd ⟨e, he, hsf⟩ hxns
-  rw [codeFwd_fresh exec f5 f6 _ _ _ hlop hns] at hcode
+  rw [codeFwd_fresh sh exec f5 f6 _ _ _ hlop hns] at hcode
   cases hx' : exec {} (hayFwd e.text (-1) 0).1 with
   | none => rfl
   | some mm => rw [hx'] at hcode; simp at hcode
